@@ -5,7 +5,7 @@ import math
 
 from . import refmodel as R
 from . import fingerprint as F
-from .monitors import M, Handler, InjectedFault
+from .monitors import M, Handler, InjectedFault, MonitorBug
 
 K = R.K
 
@@ -378,7 +378,9 @@ def addressed(slicer):
     if ann is not None:
         M.count('addr.subslice_by_annotation')
         return list(ann[0]), tuple(ann[1])
-    if not hasattr(slicer, 'items'):
+    if isinstance(slicer.slices, list) and (not isinstance(slicer.item, list) or len(slicer.slices) != len(slicer.item)):
+        pass      # (a list selection indexed again: no longer what the original selector says - by identity below)
+    elif not hasattr(slicer, 'items'):
         try:
             idx, shape = R.ref_address(list(plate.row_names), list(plate.column_names), slicer.item)
             M.count('addr.reference')
@@ -516,6 +518,8 @@ class HContainerInit(Handler):
                     unjudged = True
                 if b == 'U' and not R.is_enzyme(s):
                     infeasible = infeasible or 'non_enzyme_in_U'
+                if b == 'mol' and R.is_enzyme(s) and v != 0:
+                    infeasible = infeasible or 'enzyme_in_moles'      # (moles do not measure an enzyme: stored as nothing until 91d2819)
                 entries.append((s, v, b))
             except (R.Reject, TypeError, ValueError):
                 rejected = True
@@ -647,6 +651,23 @@ def well_list(obj):
         return 'C', None, [(None, obj)], None
     sl = as_slicer(obj)
     idx, shape = addressed(sl)
+    # invariant at a hook: the shape and size a selection *reports* (the pairing rule of transfers reads them) are those of the
+    # wells it selects - asked of a copy without the cached values, so that the caller's object is left as it is
+    try:
+        import copy as _copy
+        with M.oracle():
+            probe = _copy.copy(sl)
+            probe.__dict__.pop('shape', None)
+            probe.__dict__.pop('size', None)
+            rep_shape, rep_size = tuple(probe.shape), int(probe.size)
+        M.count('SHAPE')
+        if rep_size != len(idx) or (len(shape) == 2 and len(rep_shape) == 2 and rep_shape != tuple(shape)):
+            M.violate(['C13', 'C07', 'C02'], 'SHAPE', 'C13:selection_reports_wrong_shape_or_size',
+                      {'selection': getattr(sl, 'name', '?'), 'reported_shape': rep_shape, 'reported_size': rep_size, 'wells_selected': len(idx), 'shape_of_selection': tuple(shape)})
+    except MonitorBug:
+        raise
+    except Exception:   # noqa
+        M.count('SHAPE.unreadable')
     return 'S', sl.plate, [(ij, sl.plate.wells[ij]) for ij in idx], shape
 
 
@@ -669,6 +690,9 @@ def check_plate_transfer(src, dst, quantity, result, exc, op):
         M.count('plate_transfer.unaddressable')
         return
     ns, nd = len(swells), len(dwells)
+    if ns == 0 or nd == 0:
+        M.count('plate_transfer.no_wells')      # (a selection of no wells: nothing to pair; C04 and C08 judge the rest)
+        return
     same_plate = splate is not None and splate is dplate
     # ---- pairing by the documented rule
     if sk == 'C' and dk == 'S':
